@@ -286,6 +286,12 @@ struct CallbackSink
 };
 inline CallbackSink *& callbackSink() { static CallbackSink * s = nullptr; return s; }
 
+template <typename T> struct IsConsumable { enum { value = ! std::is_reference<T>::value && ! std::is_const<T>::value && std::is_move_constructible<T>::value && ! std::is_scalar<T>::value }; };
+template <typename A> inline typename std::enable_if<IsConsumable<A>::value>::type consumeOne(A && a) { typename std::decay<A>::type sink(std::move(a)); (void)sink; }
+template <typename A> inline typename std::enable_if<! IsConsumable<A>::value>::type consumeOne(A &&) {}
+inline void consumeRvalues() {}
+template <typename A, typename ...R> inline void consumeRvalues(A && a, R && ...r) { consumeOne<A>(std::forward<A>(a)); consumeRvalues(std::forward<R>(r)...); }
+
 struct TCallback
 {
 	Counted<K_CB> c;
@@ -312,6 +318,10 @@ struct TCallback
 		faultPoint(F_CB_INVOKE);
 		CallbackSink * s = callbackSink();
 		if(s) s->onCall(c.id, p, m);
+		// behave like a listener that takes its parameters by value and consumes them: whatever arrives as an
+		// rvalue is moved from.  Harmless when the library hands every listener its own copy, visible to the
+		// next listener if the library forwarded a shared argument.
+		consumeRvalues(std::forward<A>(a)...);
 	}
 };
 
